@@ -230,6 +230,32 @@ let () =
            propfail id (Printf.sprintf "under fault %s the run panics (%s) instead of returning an error" fault (show res))
        | _ -> ())
     end;
+    (* round 4, kind oddir: the configured hibernation directory has an unusual name (white space at the ends, BOM, invalid
+       UTF-8, case, trailing slash ...); it exists, is empty and writable, so the run is an ordinary run without fault (judged
+       above); the directories that a normalisation of the name would lead to, and the parent, must never hold a file *)
+    (match field_opt "baseany" obs with Some _ -> count "baseline_matched_by_result_only_no_run_on_the_same_base_plan_found" | None -> ());
+    (match field_opt "tickh" c with Some t -> count (Printf.sprintf "option_tick_size_%dh" (int_of_sx (List.hd (args t)))) | None -> ());
+    (match field_opt "hdir" c with
+     | Some hd ->
+         count "option_odd_directory_name";
+         (match field_opt "twin" hd with Some t when int_of_sx (List.hd (args t)) <> 0 -> count "odd_directory_with_normalised_twins" | _ -> ());
+         (match field_opt "stray" obs with
+          | Some f when int_of_sx (List.hd (args f)) > 0 ->
+              propfail id (Printf.sprintf "hibernation files were written outside the configured directory %s: %d file(s) seen in a sibling directory whose name is a normalisation of the configured name (or in the parent)"
+                             (match field_opt "shown" hd with Some x -> atom (List.hd (args x)) | None -> "?") (int_of_sx (List.hd (args f))))
+          | _ -> ())
+     | None -> ());
+    (* round 4, kind picked: an octopus merge with a hibernate action between the replay of the merge commit on some parent
+       and the merge action (the plan shows it: a Hibernate after a Commit of the same commit index as a later Commit) *)
+    if kind = "picked" then begin
+      let rec scan seen_merge_commit = function
+        | [] -> false
+        | AHibernate _ :: _ when seen_merge_commit -> true
+        | AMerge _ :: r -> scan false r
+        | ACommit (_, ci) :: r -> scan (seen_merge_commit || List.exists (function ACommit (_, cj) -> cj = ci | _ -> false) r) r
+        | _ :: r -> scan seen_merge_commit r in
+      if scan false plan then count "picked_branch_sleeps_between_merge_replay_and_merge"
+    end;
     if fst res = "ok" && final <> [] then
       propfail id ("temporary hibernation files remain after a successful run: " ^ show_listing final);
     count ("outcome_" ^ fst res);
